@@ -65,6 +65,8 @@ class ProducerScenario:
             world.extra_alts.append(self.state_fault_alts)
         self.kgates = {}  # name -> future: flush()/stop() placed by the explorer (budget k), never taken by default
         world.extra_alts.append(self.kgate_alts)
+        if p.get("cluster_modes"):
+            world.extra_alts.append(self.mode_alts)
         world.main_task = world.spawn("p", self.main)
 
     def state_fault_alts(self, world, quiescent):
@@ -142,6 +144,11 @@ class ProducerScenario:
         futs = [f for f in self.futs.values()]
         if futs:
             await asyncio.wait(futs, timeout=H)
+        if getattr(self, "stop_t0", None) is not None:
+            # stop()/flush() placed by the explorer are given the same horizon to return
+            waiting = [t for t in extra if not t.done()]
+            if waiting:
+                await asyncio.wait(waiting, timeout=H)
         for t in extra:
             if not t.done():
                 t.cancel()
@@ -228,12 +235,76 @@ class ProducerScenario:
     async def stopper(self):
         await self.kgate("stop")
         before = set(self.futs)
+        self.stop_t0 = self.world.now()
+        self.stop_mode = getattr(self, "_mode", None)
+        self.stop_f_spent = self.world.chooser.spent["f"]
+        self.world.record("stop-called")
         await self.prod.stop()
+        self.stop_dur = self.world.now() - self.stop_t0
         pending = [v for v in before if not self.futs[v].done()]
         self.world.record("stop-returned", tuple(sorted(pending)))
-        if pending:
+        if pending and self.p.get("check_c02", True):
             self.fail("stop-early", {"what": "stop-returned-before-resolution"},
                       f"stop() returned while {pending} accepted before it were unresolved")
+        if self.p.get("check_c19"):
+            try:
+                await asyncio.wait_for(self.prod.send("t", value=b"late", partition=0), timeout=1.0)
+                self.after_stop = "returned"
+            except asyncio.TimeoutError:
+                self.after_stop = "hung"
+            except Exception as e:  # noqa: BLE001
+                self.after_stop = type(e).__name__
+
+    def mode_alts(self, world, quiescent):
+        if not quiescent or world.chooser.remaining("f") <= 0 or getattr(self, "_mode", None) or not self.cluster.faults_enabled:
+            return []
+        out = [Alt(f"broker-down:{n}", "f", lambda n=n: self.set_mode(("down", n))) for n in self.cluster.nodes]
+        out.append(Alt("blackhole", "f", lambda: self.set_mode(("blackhole",))))
+        return out
+
+    def set_mode(self, mode):
+        self._mode = mode
+        self.world.record("cluster-mode", mode)
+        if mode[0] == "down":
+            self.cluster.broker_down(mode[1])
+        else:
+            self.cluster.blackhole = True
+
+    def check_c19(self):
+        import gc
+
+        world = self.world
+        # a producer has no session / rebalance timeout; with brokers silent each pending step (in-flight request, reconnect
+        # attempt, queued batch) may take one request timeout, so the bound is a small multiple of it (the hang detector is H)
+        bound = 4 * 2.0 + 1.0
+        t0 = getattr(self, "stop_t0", None)
+        if t0 is None:
+            return
+        mode = getattr(self, "stop_mode", None) or getattr(self, "_mode", None)
+        sig_mode = mode[0] if mode else "healthy"
+        idem = bool(self.p.get("idempotent"))
+        dur = getattr(self, "stop_dur", None)
+        if dur is None:
+            self.fail("stop-terminates", {"what": "stop-never-returned", "cluster": sig_mode, "idempotent": idem},
+                      f"producer stop() called at t={t0} had not returned when the run ended at t={world.now()} (cluster mode {mode})")
+            return
+        if dur > bound:
+            self.fail("stop-terminates", {"what": "stop-exceeds-bound", "cluster": sig_mode, "idempotent": idem},
+                      f"producer stop() took {dur:.3f}s of virtual time; bound from the configured timeouts is {bound:.1f}s (cluster mode {mode})")
+        if getattr(self, "after_stop", None) not in (None, "ProducerClosed"):
+            self.fail("stop-api", {"what": "call-after-stop", "call": "send", "outcome": self.after_stop},
+                      f"send() after stop() {self.after_stop} instead of raising ProducerClosed")
+        left = [x for x in world.loop.live_things("p") if x[0] != "task" or "ProducerScenario" not in x[1]]
+        if left:
+            self.fail("stop-leftovers", {"what": "alive-after-stop", "kinds": ",".join(sorted({k for k, _ in left}))},
+                      f"after producer stop() returned these things created by the client are still alive: {left[:4]}")
+        gc.collect()
+        for ctx in world.loop.exc_log:
+            msg = ctx.get("message", "")
+            if "never retrieved" in msg or "Unclosed" in msg or "was destroyed" in msg:
+                exc = ctx.get("exception")
+                self.fail("stop-leftovers", {"what": "loop-report", "message": msg[:40], "type": type(exc).__name__ if exc else "none"},
+                          f"event loop reported after stop: {msg} {exc!r}")
 
     # ---- wire-level monitors (C01 a, b) ---------------------------------------------------------------
     def on_write(self, conn, frame):
@@ -278,6 +349,8 @@ class ProducerScenario:
             self.check_log()
         if p.get("check_c02", True):
             self.check_futures()
+        if p.get("check_c19"):
+            self.check_c19()
 
     def check_sequences(self):
         if not self.p.get("idempotent"):
